@@ -11,3 +11,5 @@ package xpub
 //@   lock Mutex level 20
 //@   guarded_by Mutex: closed pipes sendQLen
 //@
+//@ func (*socket).SendMsg
+//@   loop 1 complete
